@@ -8,19 +8,19 @@ ALL = ["C%02d" % i for i in range(1, 21)]
 # id -> (technique, level text, level note, design ref)
 CHECKS = {
  "C01": ("reference-model runtime monitor (independent RFC 8907 layout table vs library bytes, both directions)",
-         "Every generated value is encoded by the library and by an independent table-driven RFC 8907 codec and the bytes are compared; reference bytes are decoded by the library and compared field by field; the slice returned for a packet is held across the next encode and re-compared. Held on the boundary sweeps and seeded random values listed in the evidence; not a proof.",
+         "Every generated value is encoded by the library and by an independent table-driven RFC 8907 codec and the bytes are compared; reference bytes are decoded by the library and compared field by field; the slice returned for a packet is held across the next encode and re-compared; bodies are also decoded into long-lived values that held an earlier packet. Held on the boundary sweeps and seeded random values listed in the evidence; not a proof.",
          "trusts the layout table in h/rfc8907 (transcribed from the RFC) and crypto/md5", "3/C01"),
  "C02": ("round-trip and refusal runtime monitor over boundary-crossing values and a hostile decode-first corpus",
-         "Oracle observes MarshalBinary/UnmarshalBinary of the real code on values on both sides of every wire-width boundary and on malformed bytes; a successful encode must be representable, valid and lossless.",
+         "Oracle observes MarshalBinary/UnmarshalBinary of the real code on values on both sides of every wire-width boundary and on malformed bytes; a successful encode must be representable, valid and lossless; a successful decode must re-encode to its bytes.",
          "validation rules are those listed in the property's anchors, re-stated independently in h/checks/c02.go", "3/C02"),
  "C04": ("red-zone sanitizer for the decoders: guard page (mmap+PROT_NONE, SetPanicOnFault), canary capacity, allocation meter, differential against the reference decoder; thorough adds -race/checkptr",
          "Each hostile input is decoded from three memory placements by every decoder, by Request.Fields and (as a reply stream) by Client.Send; panics, faults, capacity-dependent results, over-cap bodies, invalid accepted values and allocation above 16*len+64KiB are violations.",
          "reads before the start of a slice are impossible in safe Go; allocation measured with runtime.ReadMemStats in a single-goroutine worker", "3/C04"),
  "C03": ("reference-model runtime monitor at the socket (raw server/client bytes vs header||(body XOR independent MD5 pad), cleartext seen by handlers and returned by Client.Send)",
-         "The real server loop and Client.Send run over a scripted in-memory connection; every written byte and every delivered cleartext is compared with the reference pad for secrets/sessions/versions/sequence numbers/body lengths listed in the evidence; also the server's own bad-secret error packets, whatever is written after an injected write fault, request packets put together in five ways (stale length fields), replies sent through Response.Write, and connection secrets cut from one shared buffer (which must stay untouched).",
+         "The real server loop and Client.Send run over a scripted in-memory connection; every written byte and every delivered cleartext is compared with the reference pad for secrets/sessions/versions/sequence numbers/body lengths listed in the evidence; also the server's own bad-secret error packets, whatever is written after an injected write fault, request packets put together in five ways (stale length fields), replies sent through Response.Write, connection secrets cut from one shared buffer (which must stay untouched), and reference-server exchanges under configured secrets with special characters.",
          "trusts crypto/md5 and h/rfc8907.Pad; Client driven through the verif-only constructor NewClientFromConn", "3/C03"),
  "C05": ("scripted-delivery runtime monitor (generated TCP segmentation schedules against the real reader; wrapping Handler + connection event log)",
-         "Streams of packets are cut by 17 segmentation schedules and fed to the real server loop / Client.Send; the handler must see exactly the packets sent and the bodies it was handed (kept by reference) must stay intact while later packets are read; truncation, stall, pause-inside-packet and oversize-header scenarios (server and client as receiver), pauses beyond the read deadline, parallel connections after refused ones and proxy-mode streams are judged on the Read/Close event log (virtual time) and a heap meter.",
+         "Streams of packets are cut by 17 segmentation schedules and fed to the real server loop / Client.Send; the handler must see exactly the packets sent and the bodies it was handed (kept by reference) must stay intact while later packets are read; truncation, stall, pause-inside-packet and oversize-header scenarios (server and client as receiver), pauses beyond the read deadline, parallel connections after refused ones, proxy-mode streams and streams whose last bytes arrive together with EOF are judged on the Read/Close event log (virtual time) and a heap meter.",
          "simnet delivers at most one chunk per Read; oversize allocation bound 64 KiB (minimum over up to three attempts) measured with ReadMemStats", "3/C05"),
  "C06": ("raw-header runtime monitor in lock-step (reply bytes re-framed independently and compared octet by octet with the mirrored header and reference pad)",
          "All 196608 request headers (3 types x 2 minor x 256 flag octets x 128 odd sequence numbers) and every reply kind/size are exchanged with the real server loop; each reply's raw header, length field and obfuscation are checked; replies through Response.Write, fallback replies after an unsendable first reply, full 1..255 walks, and every reply of the reference server's handler paths go through the same oracle.",
@@ -29,7 +29,7 @@ CHECKS = {
          "All histories of length <= 4 over {1,2,3,5,253,255}x{A,B} plus seeded random longer histories are played in lock-step; every dispatch (which handler: initial or which continuation) and every rejection (no handler, closed) must match the model; on the reference server a final status must register no continuation and a finished session's id must start again at the initial handler.",
          "RESTART replies excluded from the scripts; handler identity observed through the wrapping Handler", "3/C08"),
  "C17": ("event-order runtime monitor over the totally ordered simnet log with virtual time; cancellation injected at generated moments",
-         "Shutdown scenarios with connections in every state and pacing scenarios are run against the real Serve loop; the oracle checks that nothing happens after Serve returned, that listener/connections/handlers are finished by then, that Serve does not return early, that a deadline is armed at every Read and that stalled connections (22 pacing patterns incl. pending sessions, single-connect, pipelined tails, providers answering nothing, proxy mode) are closed without a handler call.",
+         "Shutdown scenarios with connections in every state and pacing scenarios are run against the real Serve loop; the oracle checks that nothing happens after Serve returned, that listener/connections/handlers are finished by then, that Serve does not return early, that a deadline is armed at every Read and that the reference server wired with one context for loader and Serve still returns when clients connect after the cancellation, and that stalled connections (22 pacing patterns incl. pending sessions, single-connect, pipelined tails, providers answering nothing, proxy mode) are closed without a handler call.",
          "liveness restated as bounded progress with a quiescent-state witness; real 15 s/10 s deadlines emulated by virtual time", "3/C17"),
  "C19": ("classifier-based runtime monitor (independent length-consistency classifier of the bytes the server will see; handler entries / packets / close observed in lock-step)",
          "Requests are classified must-flag / must-not-flag / unjudged by h/rfc8907.Decode over all layouts of the type; the real loop must answer must-flag with exactly one ERROR packet of the matching type, no handler, close (also when a second mismatching packet shares the segment, nothing of which may reach the next connection), and must dispatch must-not-flag requests.",
